@@ -6,6 +6,8 @@ T3  typing obligations per construct: the arm calls the listed checkers on every
 T4  binding patterns (let, for, for-join) are shown irrefutable before the statement is accepted
 T5  recursion guard: tested before, set around, cleared after the body is checked
 T6  scoping: pushes and pops balance on accepting paths; every match clause is checked in its own scope
+T10 as_concrete_type looks every name a type mentions up (struct / enum names, consts used as array sizes) on every accepting path
+T11 max / min / + / - const expressions are only accepted for consts whose declared type is examined (numeric)
 T9  const expressions are checked against the consts defined before them (a local map filled in source order), never against the
     program's complete definition map (the compiler resolves consts in source order)
 T8  after a `!=` comparison found two types to differ, every path to acceptance constructs a type error or calls a rejecting checker
@@ -146,6 +148,10 @@ def rule_t1(ctx):
             n += 1
             cal = mir.callee(t)
             site = "result of %s" % mir.last_seg(cal or "?")
+            if t["dest"]["l"] == 0 and not t["dest"]["p"]:
+                # tail call: the result is written straight into the return place
+                res.ok({"function": f["id"], "producer": mir.last_seg(cal or "?"), "sink": "return (tail call)"})
+                continue
             if pb in consumed:
                 res.ok({"function": f["id"], "producer": mir.last_seg(cal or "?"), "sink": consumed[pb]})
                 continue
@@ -758,5 +764,93 @@ def rule_t9(ctx):
     return res
 
 
+def rule_t10(ctx):
+    """Every name a type mentions (struct / enum name, const used as an array size) is looked up when the type is made concrete."""
+    res = RuleResult("T10", "as_concrete_type resolves every name a type mentions against the program's definitions")
+    fid = "check::<impl ast::Type>::as_concrete_type"
+    body = ctx.body(fid)
+    oks = ok_exits(body)
+    adt = ctx.adt("ast::Type")
+    named = []
+    for v in adt["variants"]:
+        for i, f in enumerate(v["fields"]):
+            if f["ty"] in ("std::string::String", "ast::ConstExpr"):
+                named.append((v["name"], str(i), f["ty"]))
+    if len(named) < 3 and not res.findings:
+        raise AnchorMissing("T10: expected name-carrying variants of ast::Type (struct / enum names, const sizes), found %s" % named)
+    for (vn, fi, fty) in named:
+        if vn in ("Struct", "Enum"):
+            continue  # already resolved names (the output of this very function)
+        succ = body.pruned_succ({(SELF1, ()): vn})
+        region = body.reachable([0], succ=succ)
+        lookups = set()
+        for b in region:
+            t = body.term(b)
+            if t["k"] != "call" or body.blocks[b]["cleanup"]:
+                continue
+            seg = mir.last_seg(mir.callee(t) or "")
+            uses_field = any(r == SELF1 and len(p) >= 2 and p[0] == "as " + vn and p[1] == fi for a in t["args"] for (r, p) in body.deep_sources(a, 2))
+            uses_defs = any(r == ("arg", 2) for a in t["args"] for (r, p) in body.deep_sources(a, 2))
+            if uses_field and uses_defs and seg not in ("clone", "as_concrete_type"):
+                lookups.add(b)
+        label = "Type::%s field %s" % (vn, fi)
+        if not lookups:
+            res.bad(Finding("T10", fid, "%s is never looked up" % label,
+                            "a type that mentions a name (here: %s) is accepted without checking that the name is defined (and is a usize const where a size is expected): "
+                            "the compiler later unwraps the lookup and panics" % ("a const used as array size" if vn.startswith("Array") else "a definition"), body.fn["sp"]))
+            continue
+        w = body.path(0, [o for o in oks if o in region], blocked=lookups, succ=lambda x, succ=succ: [y for y in succ(x) if not body.blocks[y]["cleanup"]])
+        if w:
+            res.bad(Finding("T10", fid, "%s can be accepted without a lookup" % label, "a path reaches the accepting exit without resolving the name (blocks %s)" % w[:10], body.term(sorted(lookups)[0])["sp"]))
+        else:
+            res.ok({"type": label, "verdict": "resolved against the definitions on every accepting path"})
+    return res
+
+
+def rule_t11(ctx):
+    """max / min / + / - in a const definition need a numeric declared type."""
+    res = RuleResult("T11", "arithmetic const expressions are only accepted for consts of a number type")
+    fns = [f["id"] for f in checker_fns(ctx) if mir.last_seg(f["id"]) == "check_const_expr"]
+    if len(fns) != 1:
+        raise AnchorMissing("T11: check_const_expr not found")
+    body = ctx.body(fns[0])
+    sw = None
+    for b in range(body.n):
+        info = body.switch_info(b)
+        if info and info[2] == "ast::ConstExprEnum" and info[0]:
+            sw = info
+    if sw is None:
+        raise AnchorMissing("T11: check_const_expr does not switch over ConstExprEnum")
+    # the parameter that is the definition being checked: the one whose `.ty` the literal arms compare
+    def_args = [l for l in range(1, body.arg_count + 1) if "ast::ConstDef" in body.locals[l]["ty"] and "HashMap" not in body.locals[l]["ty"]]
+    if len(def_args) != 1:
+        raise AnchorMissing("T11: check_const_expr has no single ConstDef parameter")
+    da = def_args[0]
+    rets = [b for b in range(body.n) if body.term(b) and body.term(b)["k"] == "return"]
+    for v in ("Max", "Min", "Add", "Sub"):
+        succ = body.pruned_succ({sw[0]: v})
+        region = body.reachable([0], succ=succ)
+        tests = set()
+        for b in region:
+            t = body.term(b)
+            if body.blocks[b]["cleanup"]:
+                continue
+            if t["k"] == "switch":
+                info = body.switch_info(b)
+                if info and info[0] and info[0][0] == ("arg", da) and tuple(info[0][1][:1]) == ("ty",):
+                    tests.add(b)
+            if t["k"] == "call" and mir.last_seg(mir.callee(t) or "") in ("eq", "ne", "is_numeric", "is_num"):
+                if any(r == ("arg", da) and tuple(p[:1]) == ("ty",) for a in t["args"] for (r, p) in body.trace_operand(a)):
+                    tests.add(b)
+        w = body.path(0, [x for x in rets if x in region], blocked=tests, succ=lambda x, succ=succ: [y for y in succ(x) if not body.blocks[y]["cleanup"]]) if tests else [0]
+        if w:
+            res.bad(Finding("T11", fns[0], "const expression %s is accepted for a const of any type" % v.lower(),
+                            "the %s arm of check_const_expr never looks at the declared type of the const: `const B: bool = true + true` / `max(true, false)` is accepted and the compiler panics "
+                            "when it resolves the expression numerically" % v, body.fn["sp"]))
+        else:
+            res.ok({"arm": v, "verdict": "the declared type of the const is examined on every path"})
+    return res
+
+
 def run(ctx):
-    return ctx.run_rules([rule_t1, rule_t2, rule_t3, rule_t4, rule_t5, rule_t6, rule_t7, rule_t8, rule_t9])
+    return ctx.run_rules([rule_t1, rule_t2, rule_t3, rule_t4, rule_t5, rule_t6, rule_t7, rule_t8, rule_t9, rule_t10, rule_t11])
